@@ -304,6 +304,7 @@ class G:
         if kind == "block":
             bsc = Scope("block", sc)
             bsc.defs = dict(sc.defs)
+            bsc.has_caller = sc.has_caller  # an anonymous block is part of the callable it is written in: same `caller`
             filt = [self.pick(["fa", "fb", "up"])] if "flags" in self.f and self.chance(40) else []
             bsc.no_return = bool(filt)
             return {"t": "block", "name": None, "body": self.body(bsc, depth + 1, minlen=1), "filter": filt}
